@@ -313,6 +313,156 @@ fn part2(spec: &RuleSpec, depth: usize) -> Stats {
     st
 }
 
+/// part 2b: histories over the *API*, not only over documents. Every operation below is
+/// specified to be pure with respect to the shared rule value; after any sequence of them the
+/// rule must observe exactly as before, and every call must answer as it did the first time.
+pub const API_OPS: [&str; 9] = [
+    "matches(d0)", "matches(d1)", "matches(d2)", "validate()", "clone().optimise(all) + matches", "clone().optimise(shake+rewrite) + matches",
+    "serialise", "load the same text again + matches", "load another rule + matches",
+];
+const OTHER_RULE: &str = "detection:\n  A: {f: ['ia*', 'i*b', '?^A'], g: ['x', 'ix']}\n  B: {f: ['a*', '*b']}\n  condition: A or not B\ntrue_positives: []\ntrue_negatives: []\n";
+
+fn api_op(rule: &Rule, yaml: &str, docs: &[MObj], op: u8) -> String {
+    match op {
+        0..=2 => format!("{:?}", eng::matches(rule, &docs[(op as usize).min(docs.len() - 1)])),
+        3 => format!("{:?}", crate::report::catch(|| rule.validate().map_err(|e| e.to_string()))),
+        4 | 5 => {
+            let sw = if op == 4 { 0b1111 } else { 0b0110 };
+            match eng::optimise_with(rule, sw, &[]) {
+                Ok((o, _)) => format!("{}#{:?}", eng::canon(&o), eng::matches(&o, &docs[0])),
+                Err(p) => format!("PANIC {}", p),
+            }
+        }
+        // identifiers are a HashMap in the serialised struct, so their order in the text is not
+        // part of any stated property: compare the text as a sorted set of lines
+        6 => format!("{:?}", crate::report::catch(|| serde_yaml::to_string(rule).map_err(|e| e.to_string()).map(|t| {
+            let mut l: Vec<&str> = t.lines().collect();
+            l.sort();
+            l.join("\n")
+        }))),
+        7 => match eng::load(yaml) {
+            Ok(r) => format!("{}#{:?}", eng::canon(&r), eng::matches(&r, &docs[0])),
+            Err(_) => "load-error".into(),
+        },
+        _ => match eng::load(OTHER_RULE) {
+            Ok(r) => {
+                let o = eng::optimise_with(&r, 0b1111, &[]).map(|x| x.0).unwrap_or(r);
+                format!("{}#{:?}", eng::canon(&o), docs.iter().map(|d| eng::matches(&o, d)).collect::<Vec<_>>())
+            }
+            Err(_) => "load-error".into(),
+        },
+    }
+}
+
+fn part2_api(spec: &RuleSpec, depth: usize) -> Stats {
+    let mut st = Stats::default();
+    let yaml = spec.yaml();
+    let loaded = match eng::load(&yaml) {
+        Ok(r) => r,
+        Err(_) => return st,
+    };
+    let all_docs = gen::docs_for(spec, 1, 64);
+    if all_docs.is_empty() {
+        return st;
+    }
+    for sw in [0u8, 0b1111] {
+        let rule = match eng::optimise_with(&loaded, sw, &[]) {
+            Ok((r, _)) => r,
+            Err(_) => continue,
+        };
+        // three documents with differing verdicts when possible
+        let mut docs: Vec<MObj> = vec![];
+        let mut seen = HashSet::new();
+        for d in &all_docs {
+            if seen.insert(format!("{:?}", eng::matches(&rule, d))) {
+                docs.push(d.clone());
+            }
+        }
+        for d in all_docs.iter().rev() {
+            if docs.len() >= 3 {
+                break;
+            }
+            if !docs.contains(d) {
+                docs.push(d.clone());
+            }
+        }
+        while docs.len() < 3 {
+            docs.push(docs[0].clone());
+        }
+        let probes: Vec<MObj> = all_docs.iter().step_by((all_docs.len() / 8).max(1)).take(8).cloned().collect();
+        // reference answers: each operation on a fresh copy of the rule, on a fresh OS thread
+        let nops = API_OPS.len() as u8;
+        let reference: Vec<String> = (0..nops)
+            .map(|op| {
+                let (y, ds) = (yaml.clone(), docs.clone());
+                std::thread::spawn(move || {
+                    let r = eng::load(&y).ok().and_then(|r| eng::optimise_with(&r, sw, &[]).ok()).map(|x| x.0);
+                    r.map(|r| api_op(&r, &y, &ds, op)).unwrap_or_else(|| "load".into())
+                })
+                .join()
+                .unwrap_or_else(|_| "thread".into())
+            })
+            .collect();
+        let initial = observe(&rule, &probes);
+        let mut states: BTreeSet<String> = BTreeSet::new();
+        states.insert(initial.clone());
+        for len in 1..=depth {
+            let total = (nops as u64).pow(len as u32);
+            for i in 0..total {
+                let mut m = i;
+                let mut seq = vec![0u8; len];
+                for o in seq.iter_mut() {
+                    *o = (m % nops as u64) as u8;
+                    m /= nops as u64;
+                }
+                for op in &seq {
+                    let got = api_op(&rule, &yaml, &docs, *op);
+                    st.transitions += 1;
+                    if got != reference[*op as usize] {
+                        let names: Vec<&str> = seq.iter().map(|o| API_OPS[*o as usize]).collect();
+                        st.push_violation(Violation {
+                            signature: format!("result-of-{}-depends-on-earlier-calls", API_OPS[*op as usize].split('(').next().unwrap_or("op").split(' ').next().unwrap_or("op")),
+                            witness: format!("within the call sequence {:?} on one rule value, {} answered {} ; on a fresh rule it answers {} ; rule {}", names, API_OPS[*op as usize], got.chars().take(200).collect::<String>(), reference[*op as usize].chars().take(200).collect::<String>(), one_line(&yaml)),
+                            replay: json!({"kind":"api-history","rule_yaml":yaml,"sw_bits":sw,"documents":docs.iter().map(crate::report::mobj_to_json).collect::<Vec<_>>(),"ops":seq,"op_names":names}),
+                        });
+                    }
+                }
+                let o = observe(&rule, &probes);
+                st.evaluations += 1;
+                st.traces += 1;
+                if states.insert(o.clone()) {
+                    let names: Vec<&str> = seq.iter().map(|o| API_OPS[*o as usize]).collect();
+                    st.push_violation(Violation {
+                        signature: "api-calls-change-the-rule's-observable-state".into(),
+                        witness: format!("after the call sequence {:?} the rule observes as {} instead of {} ; rule {}", names, o, initial, one_line(&yaml)),
+                        replay: json!({"kind":"api-history","rule_yaml":yaml,"sw_bits":sw,"documents":docs.iter().map(crate::report::mobj_to_json).collect::<Vec<_>>(),"ops":seq,"op_names":names}),
+                    });
+                }
+            }
+        }
+        st.states += states.len() as u64;
+        st.count("api_history_sequences", (1..=depth).map(|l| (nops as u64).pow(l as u32)).sum());
+    }
+    st.nontrivial += 1;
+    st
+}
+
+/// re-executes one recorded API history (used by --replay)
+pub fn replay_api_history(yaml: &str, sw: u8, docs: &[MObj], ops: &[u8]) {
+    let rule = match eng::load(yaml).ok().and_then(|r| eng::optimise_with(&r, sw, &[]).ok()) {
+        Some((r, _)) => r,
+        None => {
+            println!("rule does not load");
+            return;
+        }
+    };
+    for op in ops {
+        let fresh = eng::load(yaml).ok().and_then(|r| eng::optimise_with(&r, sw, &[]).ok()).map(|x| api_op(&x.0, yaml, docs, *op)).unwrap_or_default();
+        let got = api_op(&rule, yaml, docs, *op);
+        println!("{:45} -> {}\n{:45}    {}", API_OPS[*op as usize], got, "   (a fresh rule answers)", fresh);
+    }
+}
+
 // ---------------------------------------------------------------------------------------------
 // part 3: schedules - all interleavings of matches() calls at callback granularity
 
@@ -813,6 +963,20 @@ pub fn run(tier: Tier) -> i32 {
         rep.stats.merge(p);
     }
     rep.stats.count("part2_rules", hist_specs.len() as u64);
+    // part 2b: API-call histories on one rule value
+    let api_specs: Vec<RuleSpec> = {
+        let mut v: Vec<RuleSpec> = hist_specs.iter().step_by(if th { 2 } else { 3 }).cloned().collect();
+        v.extend(twin_specs().into_iter().step_by(if th { 1 } else { 3 }));
+        v
+    };
+    let api_depth = if th { 4 } else { 3 };
+    let parts: Vec<Stats> = api_specs.par_iter().map(|s| part2_api(s, api_depth)).collect();
+    for p in parts {
+        rep.stats.merge(p);
+    }
+    rep.stats.count("part2b_rules", api_specs.len() as u64);
+    rep.extra.insert("api_history_operations".into(), json!(API_OPS));
+    rep.extra.insert("api_history_depth".into(), json!(api_depth));
     // part 3 (sequential: shuttle owns its thread)
     let mut total_sched = 0usize;
     let mut sched_detail = vec![];
